@@ -547,6 +547,9 @@ def register_pretty(type=None, predicate=None):
                 # class, we can call register_pretty(cls)(fn)
                 _DEFERRED_DISPATCH_BY_NAME[type] = fn
             else:
+                # A registration for the class replaces an earlier
+                # by-name registration that is still pending.
+                _DEFERRED_DISPATCH_BY_NAME.pop(get_deferred_key(type), None)
                 pretty_dispatch.register(type, partial(_run_pretty, fn))
         else:
             assert callable(predicate)
@@ -567,11 +570,10 @@ def is_registered(
             'register_deferred may not be True when check_deferred is False'
         )
 
-    if type in pretty_dispatch.registry:
-        return True
-
     if check_deferred:
-        # Check deferred printers for the type exactly.
+        # Check deferred printers for the type exactly. A pending by-name
+        # registration is newer than what is in the registry, so it is
+        # looked at first.
         deferred_key = get_deferred_key(type)
         if deferred_key in _DEFERRED_DISPATCH_BY_NAME:
             if register_deferred:
@@ -580,6 +582,9 @@ def is_registered(
                 )
                 register_pretty(type)(deferred_dispatch)
             return True
+
+    if type in pretty_dispatch.registry:
+        return True
 
     if not check_superclasses:
         return False
